@@ -76,7 +76,10 @@ def case_pair(ctx, spec):
 
 
 def pair_spec():
-    return gen.backtest_spec(nested=True, deterministic_children=True, min_dates=4, max_dates=18)
+    two = gen.backtest_spec(nested=True, deterministic_children=True, min_dates=4, max_dates=18)
+    # three levels: a middle strategy allocating among its own sub-strategies (possibly by their price history), some of them unfunded for a while
+    three = gen.backtest_spec(nested=True, deterministic_children=True, min_dates=5, max_dates=16, depth3=True, max_sub=2)
+    return st.one_of(two, two, three)
 
 
 SUBS = {"pair": case_pair}
@@ -84,4 +87,4 @@ STRATS = {"pair": pair_spec}
 
 
 def shard(ctx):
-    run_sub(ctx, "pair", pair_spec(), lambda s: case_pair(ctx, s), ctx.n(1000, 12000))
+    run_sub(ctx, "pair", pair_spec(), lambda s: case_pair(ctx, s), ctx.n(2400, 24000))
